@@ -229,11 +229,14 @@ FinalizeOp(S, x, free) ==
 (* event_deferred_cb_schedule_: beyond the quota of the current iteration the callback is
    queued for the next iteration instead *)
 DeferOne(S, x) ==
+  \* event_callback_activate_nolock_: like an event, a callback more urgent than the running one makes the
+  \* loop start over from the highest priority (event_continue)
+  LET Urgent(T) == IF T.ev[x].pri < T.runprio THEN [T EXCEPT !.cont = TRUE] ELSE T IN
   IF S.ndef > DQ
   THEN (IF S.ev[x].fl \cap {"ACT", "LATER"} = {} THEN InsLater(S, x) ELSE S)
   ELSE IF "ACT" \in S.ev[x].fl THEN S
-  ELSE IF "LATER" \in S.ev[x].fl THEN InsActive(RemLater(S, x), x)
-  ELSE [InsActive(S, x) EXCEPT !.ndef = @ + 1]
+  ELSE IF "LATER" \in S.ev[x].fl THEN Urgent(InsActive(RemLater(S, x), x))
+  ELSE [Urgent(InsActive(S, x)) EXCEPT !.ndef = @ + 1]
 RECURSIVE DeferMany(_, _, _)
 DeferMany(S, k, n) == IF k > n THEN S ELSE DeferMany(DeferOne(S, 20 + k), k + 1, n)
 
@@ -361,7 +364,17 @@ HeapStepOK(s, i) ==
     [] i = 8 -> s.a = "add" /\ s.e = 17 /\ s.t = 20
     [] i = 9 -> s.a = "add" /\ s.e = 18 /\ s.t = 21
     [] OTHER -> s.a = "loop" /\ s.f = 0 /\ s.pol = "exact"
-PatGuard(op) == ("heappat" \in Acts) => HeapStepOK(op, Len(hist) + 1)
+(* directed family "deferpat": two events put at priority 1 or 2, one of them given a callback script that schedules
+   deferred callbacks (priority NPrio \div 2), both activated, one loop call: a deferred callback scheduled from a
+   running priority-2 callback must run before the other priority-2 callback *)
+DeferStepOK(s, i) ==
+  CASE i = 1 -> s.a = "prio" /\ s.e = 1 /\ s.p \in {1, 2}
+    [] i = 2 -> s.a = "prio" /\ s.e = 3 /\ s.p \in {1, 2}
+    [] i = 3 -> s.a = "script" /\ s.s.a = "defer"
+    [] i \in {4, 5} -> s.a = "act" /\ s.r = 2
+    [] OTHER -> s.a = "loop"
+PatGuard(op) == /\ (("heappat" \in Acts) => HeapStepOK(op, Len(hist) + 1))
+                /\ (("deferpat" \in Acts) => DeferStepOK(op, Len(hist) + 1))
 Api ==
   /\ st.pc = "idle"
   /\ \E op \in OuterOps(st) :
@@ -407,6 +420,7 @@ SetScript ==
   /\ st.pc = "idle" /\ "script" \in Acts
   /\ \E e \in UserEv, sc \in ScriptSet :
        /\ st.ev[e].alloc /\ sc # st.script[e] /\ sc.a # "none"
+       /\ PatGuard([a |-> "script", e |-> e, s |-> sc])
        /\ st' = [st EXCEPT !.script[e] = sc]
        /\ hist' = Append(hist, [a |-> "script", e |-> e, s |-> sc, o |-> Obs(st', 0)])
 
@@ -437,7 +451,9 @@ MakeLaterActive(S) ==
 IterTop ==
   /\ st.pc = "top"
   /\ LET S0 == [st EXCEPT !.cont = FALSE, !.ndef = 0] IN
-     IF S0.term \/ S0.brk \/ S0.done THEN st' = [S0 EXCEPT !.pc = "ret"]
+     \* `while (!done)`: when done is set the body (and its reset of n_deferreds_queued) is not entered again
+     IF st.done THEN st' = [st EXCEPT !.pc = "ret"]
+     ELSE IF S0.term \/ S0.brk THEN st' = [S0 EXCEPT !.pc = "ret"]
      ELSE LET tmo == IF NAct(S0) = 0 /\ ~FlagNonblock(S0)
                      THEN (IF Heap(S0) = {} THEN INF
                            ELSE Max(0, S0.ev[HeapTop(S0)].dl - Now(S0)))
